@@ -55,7 +55,7 @@ class Statement(typing.NamedTuple):
                 where = self.ordinal.where(lower, upper)
                 if where is not None:
                     statement = statement.query.where(where)
-            elif lower or upper:
+            elif lower is not None or upper is not None:
                 raise forml.UnexpectedError('Bounds provided but source not ordinal')
             return statement
 
